@@ -499,7 +499,7 @@ Theorem builder_exact_all : forall text cover evs fin,
     fno = option_map Z.of_nat (first_name_off ops 0 state0 0) /\
     names = snames /\ fcol = scol /\
     endst = snd (emit ops 0 state0) /\
-    sorted_ops ops 0.
+    sorted_ops ops 0 /\ end_col ops 0 <= fcol.
 Proof.
   intros text cover evs fin Hall.
   destruct (rel_run text cover evs _ _ _ (Rel_init cover) Hall) as (b & Erun & R).
@@ -520,4 +520,5 @@ Proof.
   - exact Hcol.
   - rewrite He. reflexivity.
   - exact Hs.
+  - rewrite Hec. exact Hle.
 Qed.
